@@ -166,6 +166,29 @@ Proof.
   unfold s_has in *. rewrite s_get_delete_other by exact Hb. exact H.
 Qed.
 
+(* [before] is a strict relation between live keys *)
+Lemma s_has_in (s : smap) k : s_has s k = true -> In k (map fst s).
+Proof.
+  unfold s_has. induction s as [|[k' v'] r IH]; simpl; [discriminate|].
+  destruct (Nat.eqb_spec k k') as [->|Hne]; [left; reflexivity|]. intros H; right; exact (IH H).
+Qed.
+
+Lemma before_live (s : smap) a b : before a b s -> s_has s a = true /\ s_has s b = true.
+Proof.
+  unfold before, s_has. induction s as [|[k' v'] r IH]; simpl; [discriminate|].
+  destruct (Nat.eqb_spec a k') as [->|Hne].
+  - intros H. split; [reflexivity|]. destruct (Nat.eqb b k'); [reflexivity|exact H].
+  - intros H. destruct (IH H) as [H1 H2]. split; [exact H1|].
+    destruct (Nat.eqb b k'); [reflexivity|exact H2].
+Qed.
+
+Lemma before_irrefl (s : smap) a : NoDup (map fst s) -> ~ before a a s.
+Proof.
+  unfold before. induction s as [|[k' v'] r IH]; simpl; intros Hn H; [discriminate|].
+  inversion Hn as [|x l Hni Hn']; subst.
+  destruct (Nat.eqb_spec a k') as [->|Hne]; [apply Hni, s_has_in; exact H|exact (IH Hn' H)].
+Qed.
+
 (* Filter: if both keys survive the predicate, their relative order survives too *)
 Lemma after_filter (s : smap) a va f : s_get s a = Some va -> f a va = true ->
   after a (s_filter s f) = s_filter (after a s) f.
@@ -280,6 +303,15 @@ Theorem m_order_stable_filter m f (m1 : @omap V) tr a b va vb : Inv m -> m_filte
 Proof.
   intros HI Hf Ha Hfa Hb Hfb. destruct (filter_ok zero m f m1 tr HI Hf) as (_ & _ & <-).
   apply (before_filter _ a b va vb); assumption.
+Qed.
+
+Theorem m_before_strict m a b : Inv m -> before a b (abs m) ->
+  a <> b /\ m_has m a = true /\ m_has m b = true.
+Proof.
+  intros HI H. split.
+  - intros ->. exact (before_irrefl _ b (abs_keys_nodup zero m HI) H).
+  - destruct (before_live _ _ _ H) as [Ha Hb]. unfold s_has in *. rewrite !(get_abs zero _ _ HI) in *.
+    split; [exact Ha|exact Hb].
 Qed.
 
 End Laws.
